@@ -72,11 +72,6 @@ theorem top_pushAll (fs : List (BitVec 64 × BitVec 64)) : ∀ (l c w l1 : BitVe
     rw [ih (l + b) _ w l1 hV' (fun f hf => hok f (List.mem_cons_of_mem _ hf)) (by omega) hp hl1' h1]
     exact top_push l c b v l1 hV hb hv hfit1 hl1 h1
 
-/-- lexicographic order of two index paths that diverge before either ends -/
-def LexLt : List Nat → List Nat → Prop
-  | i :: r, i' :: r' => i < i' ∨ (i = i' ∧ LexLt r r')
-  | _, _ => False
-
 /-- **Order**: of two node paths of one type that diverge (neither is a prefix of the other),
 the lexicographically smaller one has the numerically smaller packed key -/
 theorem pack_lt : ∀ (p p' : List Nat) (s t t' : Schema) (l c w w' : BitVec 64), s.WF → s.Small →
@@ -153,48 +148,5 @@ end MiniconfVerif
 
 namespace MiniconfVerif
 set_option autoImplicit false
-
-theorem go_heads_ge : ∀ (cs : List Schema) (k : Nat) (p : List Nat), p ∈ Schema.leaves.go cs k → ∃ i r, p = i :: r ∧ k ≤ i := by
-  intro cs k p h
-  obtain ⟨i, c, rest, _, h2, _⟩ := mem_leaves_go cs k p h
-  exact ⟨k + i, rest, h2, by omega⟩
-
-theorem go_pairwise : ∀ (cs : List Schema) (k : Nat), (∀ c ∈ cs, c.leaves.Pairwise LexLt) →
-    (Schema.leaves.go cs k).Pairwise LexLt
-  | [], _, _ => by simp [Schema.leaves.go]
-  | c :: cs, k, h => by
-    simp only [Schema.leaves.go]
-    rw [List.pairwise_append]
-    refine ⟨?_, go_pairwise cs (k + 1) (fun c' hc' => h c' (by simp [hc'])), ?_⟩
-    · rw [List.pairwise_map]
-      exact (h c (by simp)).imp (fun hab => Or.inr ⟨rfl, hab⟩)
-    · intro a ha b hb
-      simp only [List.mem_map] at ha
-      obtain ⟨x, _, rfl⟩ := ha
-      obtain ⟨i, r, rfl, hi⟩ := go_heads_ge cs (k + 1) b hb
-      exact Or.inl (by omega)
-
-/-- the leaves are listed in strictly increasing lexicographic order -/
-theorem leaves_pairwise : ∀ (d : Nat) (s : Schema), s.maxDepth ≤ d → s.leaves.Pairwise LexLt := by
-  intro d
-  induction d with
-  | zero =>
-    intro s hd
-    cases s with
-    | leaf => simp [Schema.leaves]
-    | node lk cs => simp [Schema.maxDepth] at hd
-    | array n c => simp [Schema.maxDepth] at hd
-  | succ d ih =>
-    intro s hd
-    cases hs : s.isLeaf with
-    | true => cases s <;> simp_all [Schema.isLeaf, Schema.leaves]
-    | false =>
-      have hne : s ≠ .leaf := by intro e; subst e; simp [Schema.isLeaf] at hs
-      rw [leaves_eq_kids s hne]
-      apply go_pairwise
-      intro c hc
-      obtain ⟨i, hi⟩ := List.getElem?_of_mem hc
-      have := kid_maxDepth s c i hi
-      exact ih c (by omega)
 
 end MiniconfVerif
